@@ -21,7 +21,8 @@ def nontrivial(line):
     if m < 1 or l < m or len(set(f.get("seq", ""))) < 2:
         return None
     return (f["abc"], c, l % c, l // c if l // c < 3 else (3 if l < c * c else 4), m,
-            "ff800000" in f.get("pssm", ""), f.get("rows", "-"), f.get("wrap", "m") == "m")
+            "ff800000" in f.get("pssm", ""), f.get("rows", "-"),
+            "m" if f.get("wrap", "m") == "m" else ("r" if "+" in f.get("wrap", "") else "k"))
 
 
 def histogram(line):
@@ -34,7 +35,8 @@ def histogram(line):
             "M=0" if m == 0 else "M<=%d" % (10 * ((m + 9) // 10)),
             "L<M" if l < m else ("L=M" if l == m else ("L<=%d" % (c * 2 ** max(0, (l // c)).bit_length()))),
             "Lmod=%d" % (l % c) if l % c in (0, 1, c - 1) else "Lmod=other",
-            "wrap=" + ("motif" if f.get("wrap") == "m" else ("none" if f.get("wrap") == "0" else "explicit")),
+            "wrap=" + ("motif" if f.get("wrap") == "m" else ("none" if f.get("wrap") == "0" else
+                       ("reconfigured" if "+" in f.get("wrap", "") else "explicit"))),
             "neginf" if "ff800000" in f.get("pssm", "") else "finite"]
     return keys
 
@@ -56,32 +58,47 @@ SPEC = dict(
     nontrivial=nontrivial,
     histogram=histogram,
     translate=translate,
-    rule="DNA (K=5, AVX2 permute path) and protein (K=21, AVX2 gather path) cases; C=32 through "
+    rule="Proof: 24 theorems of coq/score/C01.v, for all inputs (no size bound): generic pipeline cell = defined "
+         "left-to-right sum for any carrier/addition (score_generic_cell, score_unstripe: exactly L-M+1 values, none "
+         "when L<M; score_rows_sub; score_position); AVX2 permute and gather kernels, the AVX2 wrapper, the SSE2 "
+         "kernel (any multiple of 16 columns; abstract addition with x+0=x off -0, instantiated for binary32 from "
+         "Flocq) and every arm of the dispatcher equal the generic pipeline for every row range, every previous "
+         "buffer content and every padding content (lane tables regenerated from avx2.rs/dispatch.rs by the "
+         "translator and re-checked by reflection); sub-range, L<M and unconfigured-wrap guards per backend; 16- and "
+         "32-column layouts; IEEE facts from Flocq: neg_inf_absorbs, fsum_error_bound (FULL: |fl(sum)-sum| <= "
+         "((1+2^-24)^n - 1) * sum|t| when no partial sum overflows), a computable no-overflow condition "
+         "(n <= 2^23, sum|t| <= 2^126), defined_sum_holds; check_C01_sound (the extracted checker implies the "
+         "real-number statement Holds_C01). "
+         "Correspondence run: DNA (K=5, AVX2 permute path) and protein (K=21, AVX2 gather path) cases; C=32 through "
          "Pipeline::generic/sse2/avx2, Pipeline::dispatch() and ScoringMatrix::score under each forced arm "
          "(verif hook) and unforced; C=16 and C=48 through generic and SSE2; M in 0..40; L in {0..M+2}, "
          "{k*C+d}, 1..300, around C*C (and around 256*C, k*C for k<40 in the thorough tier); matrices of "
          "quarter-grid values, log-odds-like values, random bit patterns of moderate and of wide magnitude, "
          "subnormals, a few overflowing ones, +0/-0 cells, -inf in the wildcard column (60%) and elsewhere; "
-         "sequences with wildcards anywhere; configure(), configure_wrap(k) with k above and below M-1; one "
+         "sequences with wildcards anywhere; configure(), configure_wrap(k) with k above and below M-1, and "
+         "re-configuration of an already configured sequence (k1+k2+configure); one "
          "or two row sub-ranges per case (inside the sequence rows, reaching into or past the look-ahead "
          "rows, empty, inverted) run on the reused buffer; unstripe, max_index, Index<usize> (incl. padding "
-         "and out-of-range), score_position (incl. out-of-range). Every result cell, panic and value is "
-         "compared bit for bit with the extracted Coq model at binary32 (Flocq); the extracted checker "
-         "decides count, definition/tolerance, -inf and backend equality. Non-trivial: distinct (alphabet, "
+         "and out-of-range), score_position (incl. out-of-range); the README example is in the corpus. Every "
+         "result cell, panic and value is "
+         "compared bit for bit with the extracted Coq model at binary32 (Flocq); PROPFAIL is decided by the "
+         "extracted check_C01 (count, definition/tolerance n*2^-23*sum|t|, -inf) and by equality of the bit "
+         "patterns across pipelines, arms and sub-range calls. Non-trivial: distinct (alphabet, "
          "C, L mod C, size class, M, has -inf, sub-ranges, wrap kind) with L >= M and >= 2 distinct symbols.",
     trusted_base=[
-        "Coq 8.16.1 kernel (coqc); vm_compute only in the lane-layout reflection and the Example lemmas; no native_compute",
-        "Flocq 4.1 (BinarySingleNaN) as the definition of IEEE-754 binary32 addition, through LMBase.IEEE",
+        "Coq 8.16.1 kernel (coqc); vm_compute only in the lane-layout reflection (avx2_layout_ok) and the Example lemmas; no native_compute",
+        "Flocq 4.1 (BinarySingleNaN, Plus_error, Relative) as the definition of IEEE-754 binary32 addition, through LMBase.IEEE; the classical axioms of Coq's Reals that Flocq's B2R theorems use (sig_forall_dec, sig_not_dec, functional_extensionality_dep, classic) under the 13 theorems that mention reals or the -0 lemma",
         "extraction: ExtrOcamlBasic only (nat, N, Z, positive, Flocq floats kept as extracted inductives); OCaml 4.13.1",
-        "hand-written OCaml driver ocaml/score/driver.ml (parsing, comparison of bit patterns, sampling of rows for the costly kernel models)",
+        "hand-written OCaml driver ocaml/score/driver.ml (parsing, comparison of bit patterns across pipelines, sampling of rows for the costly kernel models)",
         "Rust harness harness/src/bin/score.rs (calls the public API, catch_unwind, prints bit patterns; `=` back-references for results identical to the generic pipeline's)",
-        "translator translate/score_avx2.py (regex extraction of the shuffle masks, permute2f128 operands, store offsets and the dispatcher's match arms)",
-        "lane-wise semantics given to the x86 intrinsics in coq/score/SimdModel.v (exercised by the correspondence run)",
-        "modelled, not verified: the Rust code itself (pli/mod.rs, avx2.rs, sse2.rs, dispatch.rs, scores.rs, seq.rs, pwm/mod.rs as read)",
+        "translator translate/score_avx2.py (regex extraction of the shuffle masks and which accumulator each feeds, permute2f128 operands, store offsets and the dispatcher's match arms)",
+        "lane-wise semantics given to the x86 intrinsics in coq/score/SimdModel.v (shuffle_epi8, unpack*_epi8, permutevar8x32, i32gather, permute2f128, cmpeq/and, add_ps, stream stores), exercised by the correspondence run",
+        "modelled, not verified: the Rust code itself (pli/mod.rs, avx2.rs, sse2.rs, dispatch.rs, scores.rs, seq.rs, pwm/mod.rs as read); NEON kernels are not compiled on this host and are not covered",
     ],
     assumptions=[
-        "the sequence matrix satisfies Striped C s m (proved for the library's striping under C04; checked by the driver on every matrix the library built)",
-        "symbols are below K and scoring-matrix rows have K cells (type invariants of A::Symbol and DenseMatrix<f32, A::K>)",
-        "NaN payloads are not distinguished (one NaN); no cell of the property's quantifier is NaN or +inf",
+        "the sequence matrix satisfies Striped C s m (proved for the library's striping under C04; checked by the driver on every matrix the library built, incl. after re-configuration)",
+        "symbols are below K and scoring-matrix rows have K cells (type invariants of A::Symbol and DenseMatrix<f32, A::K>); every row of a score buffer has C cells (sc_wf: type invariant of StripedScores<f32, C>)",
+        "NaN payloads are not distinguished (one NaN); the value statements (Holds_C01) claim nothing for matrices with a NaN or +inf cell or with sum|t_j| >= 2^126 (intermediate overflow possible) and for motifs wider than 2^23; the bit-for-bit backend equalities have no such restriction",
+        "M = 0 is outside the property (M >= 1): the model still follows the code there (SIMD wrappers panic on `rows() - 1`)",
     ],
 )
